@@ -496,7 +496,22 @@ func isPanic(err error) bool { return err != nil && len(err.Error()) >= 6 && err
 func (e *c09Env) runOp(op c09Op, rel string, lvl0, lvl1 int) {
 	c := e.c
 	sc := fmt.Sprintf("%s/logN%d/%s/l%d,%d", e.scheme, e.logN, rel, lvl0, lvl1)
-	key := func(what, pat string) string { return "C09-" + what + "-" + op.name + pat }
+	// stable finding keys: the four defects handled by the C05 patches get their own key
+	key := func(what, pat string) string {
+		isBgv := containsStr(op.name, "bgv.Evaluator")
+		scalar := op.kind == "u64" || op.kind == "big"
+		switch {
+		case what == "inputs" && isBgv && op.kind == "big":
+			return "C09/bgv-bigint-operand-rewritten"
+		case what == "alias" && pat == "/out=op1" && isBgv && (containsStr(op.name, ".Add") || containsStr(op.name, ".Sub")):
+			return "C09/bgv-matchscale-out-aliases-op1"
+		case (what == "alias" || what == "history") && isBgv && scalar:
+			return "C09/bgv-scalar-op-output-scale"
+		case what == "panic" && containsStr(op.name, "bgv.Evaluator.Rescale"):
+			return "C09/bgv-rescale-output-degree"
+		}
+		return "C09-" + what + "-" + op.name + pat
+	}
 	mulA := uint64(1)
 	if rel == "gt" {
 		mulA = 3
